@@ -33,7 +33,39 @@ def new_export(rnd: random.Random, kind: str, state=None, mod=None) -> dict:
 
 
 def new_use(rnd: random.Random, i: int, dep: str, ename: str) -> dict:
-    return {"id": i, "dep": dep, "name": ename, "t": rnd.choice(TYPES), "a": rnd.choice(TYPES), "form": rnd.randrange(3), "ignore": False}
+    u = {"id": i, "dep": dep, "name": ename, "t": rnd.choice(TYPES), "a": rnd.choice(TYPES), "form": rnd.randrange(3), "ignore": False}
+    # a quarter of the uses of class-like exports mention the class in a SIGNATURE ONLY (no expression refers to it):
+    # the dependency then exists only through the type annotation (drawn from the id, not from `rnd`, so that the
+    # rest of a history is the same with and without this feature)
+    k = random.Random(i * 7919 + len(ename)).randrange(4 * len(SIG_WRAPS))
+    if k < len(SIG_WRAPS):
+        u["sig"] = k
+    return u
+
+
+# annotation-only mentions of a class R of another module
+SIG_WRAPS = [
+    ["def sg%(i)d(v: object) -> TypeIs[%(r)s]:", "    return True"],
+    ["def sg%(i)d(v: object) -> TypeGuard[%(r)s]:", "    return True"],
+    ["sg%(i)d: Callable[[%(r)s], None] = lambda a: None"],
+    ["def sg%(i)d(v: type[%(r)s]) -> None: ..."],
+    ["def sg%(i)d(*a: %(r)s, **k: %(r)s) -> None: ..."],
+    ["sg%(i)d: list[tuple[%(r)s, ...]] = []"],
+    ["class SG%(i)d(Generic[T]): ...", "sgv%(i)d: SG%(i)d[%(r)s] | None = None"],
+    ["def sg%(i)d() -> Callable[[], %(r)s] | None:", "    return None"],
+    ["SGT%(i)d = TypeVar('SGT%(i)d', bound=%(r)s)", "def sgb%(i)d(v: SGT%(i)d) -> SGT%(i)d:", "    return v"],
+    ["class SGN%(i)d(NamedTuple):", "    f: %(r)s | None"],
+    ["class SGD%(i)d(TypedDict):", "    f: list[%(r)s]"],
+    ["@dataclass", "class SGC%(i)d:", "    f: %(r)s | None = None"],
+    ["class SGP%(i)d(Protocol):", "    def pm(self, v: %(r)s) -> None: ..."],
+    ["@overload", "def sgo%(i)d(v: int) -> %(r)s | None: ...", "@overload", "def sgo%(i)d(v: str) -> str: ...", "def sgo%(i)d(v: object) -> object:", "    return None"],
+    ["class SGQ%(i)d:", "    @property", "    def p(self) -> %(r)s | None:", "        return None"],
+    ["SGA%(i)d = dict[str, %(r)s]", "sga%(i)d: SGA%(i)d = {}"],
+    ["class SGL%(i)d(list[%(r)s]): ..."],
+    ["def sgn%(i)d() -> None:", "    def inner(v: %(r)s) -> None: ..."],
+    ["class SGV%(i)d:", "    cv: ClassVar[list[%(r)s]] = []"],
+    ["sgx%(i)d = cast('list[%(r)s]', [])"],
+]
 
 
 def make_consistent(st, u) -> None:
@@ -219,6 +251,8 @@ def render_use(st, mod, u) -> list[str]:
         kind = src["kind"] if src and src["kind"] != "reexport" else "const"
     tail = "  # type: ignore" if u.get("ignore") else ""
     out = []
+    if u.get("sig") is not None and kind in ("cls", "nt", "dc", "td", "proto", "enum"):
+        return [l % {"i": i, "r": r} + (tail if "%(r)s" in l else "") for l in SIG_WRAPS[u["sig"] % len(SIG_WRAPS)]]
     if kind in ("func", "ovl"):
         if u["form"] == 0:
             out += ["u%d: %s = %s(%s)%s" % (i, u["t"], r, lit(u["a"]), tail)]
@@ -258,7 +292,7 @@ def render_use(st, mod, u) -> list[str]:
     return out
 
 
-HEADER = ["from __future__ import annotations", "from typing import Final, Generic, TypeVar, Protocol, NamedTuple, TypedDict, Callable, overload, TYPE_CHECKING", "from dataclasses import dataclass", "from enum import Enum", "T = TypeVar('T')"]
+HEADER = ["from __future__ import annotations", "from typing import Final, Generic, TypeVar, Protocol, NamedTuple, TypedDict, Callable, overload, TYPE_CHECKING, ClassVar, cast", "from dataclasses import dataclass", "from enum import Enum", "from typing_extensions import TypeIs, TypeGuard", "T = TypeVar('T')"]
 
 
 def render_module(st, mod, stub=False) -> str:
@@ -290,6 +324,8 @@ def render_module(st, mod, stub=False) -> str:
         out.append("if TYPE_CHECKING:")
         out += ["    import %s" % d for d in tc]
     for name, e in m["exports"].items():
+        if e.get("hidden"):
+            continue  # the definition is gone for now (same name comes back when the op is applied again)
         out += render_export(st, mod, name, e)
     for u in m["uses"]:
         if m["imports"].get(u["dep"]) == "tc":
@@ -336,7 +372,7 @@ def render(st) -> dict:
 # ---------------------------------------------------------------- edits
 
 EDIT_KINDS = ["change_export", "change_export", "change_export", "add_export", "remove_export", "add_use", "remove_use", "change_use", "add_import", "remove_import", "restyle_import",
-              "toggle_broken", "toggle_semblock", "toggle_ignore", "toggle_unlisted", "toggle_import_ignore", "toggle_body_error", "toggle_body_error", "delete_module", "delete_module", "add_module", "rename_module", "to_package", "add_stub", "remove_stub", "set_base", "make_subclass", "fix_errors"]
+              "toggle_broken", "toggle_semblock", "toggle_ignore", "toggle_unlisted", "toggle_import_ignore", "toggle_body_error", "toggle_body_error", "delete_module", "delete_module", "add_module", "rename_module", "to_package", "add_stub", "remove_stub", "set_base", "make_subclass", "fix_errors", "toggle_hidden"]
 
 
 def draw_edit(st, rnd: random.Random) -> dict:
@@ -353,7 +389,13 @@ def draw_edit(st, rnd: random.Random) -> dict:
     if mod is None:
         return {"op": "add_module", "mod": "m%d" % fresh(st), "seed": op["seed"]}
     m = st["mods"][mod]
-    if kind in ("change_export", "remove_export", "set_base") and m["exports"]:
+    if kind == "toggle_hidden":
+        # prefer an export that another module uses
+        used = sorted({(u["dep"], u["name"]) for o, om in st["mods"].items() for u in om["uses"] if u["dep"] in st["mods"] and u["dep"] != o and u["name"] in st["mods"][u["dep"]]["exports"]})
+        if used:
+            op["mod"], op["name"] = rnd.choice(used)
+            return op
+    if kind in ("change_export", "remove_export", "set_base", "toggle_hidden") and m["exports"]:
         op["name"] = rnd.choice(sorted(m["exports"]))
     if kind in ("remove_use", "change_use", "toggle_ignore") and m["uses"]:
         op["use"] = rnd.choice(m["uses"])["id"]
@@ -403,6 +445,16 @@ def apply_edit(st, op) -> bool:
         add_export(st, rnd, mod)
     elif kind == "remove_export" and op.get("name") in m["exports"]:
         del m["exports"][op["name"]]
+    elif kind == "add_sig_uses" and op.get("dep") in m["imports"] and op.get("dep") in st["mods"]:
+        # every annotation-only position at once, for one class of another module
+        for k in range(len(SIG_WRAPS)):
+            u = new_use(rnd, fresh(st), op["dep"], op["name"])
+            u["sig"] = k
+            m["uses"].append(u)
+    elif kind == "toggle_hidden" and op.get("name") in m["exports"]:
+        # the definition disappears / comes back unchanged (dependants must notice both)
+        e = m["exports"][op["name"]]
+        e["hidden"] = not e.get("hidden")
     elif kind == "add_use":
         add_use(st, rnd, mod)
     elif kind == "remove_use":
@@ -499,13 +551,13 @@ PROFILES = {
     # batch-mode histories that cannot close an import cycle (no add_import / add_module / restyle to star)
     "acyclic-batch": {"edits": ["change_export", "change_export", "change_used_export", "add_export", "remove_export", "add_use", "remove_use", "change_use", "remove_import", "toggle_broken", "toggle_semblock",
                                 "toggle_ignore", "toggle_body_error", "toggle_unlisted", "toggle_import_ignore", "delete_module", "rename_module", "to_package", "add_stub", "remove_stub", "set_base",
-                                "make_subclass", "fix_errors"],
+                                "make_subclass", "fix_errors", "toggle_hidden"],
                       "styles": ["import", "import", "from", "func", "tc", "frompkg"], "kinds": EXPORT_KINDS},
     # daemon-friendly fragments, enabled construct by construct (C03 saturation protocol)
     "basic": {"edits": ["change_export", "change_export", "add_export", "remove_export", "add_use", "remove_use", "change_use", "toggle_ignore", "toggle_semblock", "toggle_body_error", "fix_errors", "set_base", "make_subclass", "make_subclass"],
               "styles": ["import", "import", "from"], "kinds": ["func", "func", "cls", "cls", "const", "alias", "box", "nt", "dc", "enum", "ovl"]},
     "structure": {"edits": ["change_export", "change_export", "add_export", "remove_export", "add_use", "remove_use", "change_use", "remove_import", "restyle_import", "toggle_broken", "toggle_semblock", "change_used_export",
-                            "toggle_ignore", "toggle_body_error", "set_base", "make_subclass", "make_subclass", "fix_errors"],
+                            "toggle_ignore", "toggle_body_error", "set_base", "make_subclass", "make_subclass", "fix_errors", "toggle_hidden"],
                   "styles": ["import", "import", "from", "func", "tc"], "kinds": ["func", "func", "cls", "cls", "const", "alias", "box", "proto", "nt", "td", "dc", "enum", "ovl", "deco"]},
 }
 
